@@ -1,13 +1,17 @@
 // extract: a deliberately tiny Go -> Gallina translator (DESIGN.md section 3.5).
 // Usage: extract <file.go> <funcname> <coqname>      first-order integer function
-//        extract const <file.go> <name>               string constant      -> its value, one line, Go-quoted
-//        extract map <file.go> <var>                  map composite literal -> one "key<TAB>value" line per entry, sorted
-//                                                     (string literals unquoted, identifiers/other expressions as source text)
-//        extract fn <file.go> <Name[,Name...]> <prefix>  first-order functions over strings, ints, bools, slices and
-//                                                     structs (fn.go; tools/notes/Translator.md)
-//        extract src <file.go> <Name>                 the Go text of a function
+//
+//	extract const <file.go> <name>               string constant      -> its value, one line, Go-quoted
+//	extract map <file.go> <var>                  map composite literal -> one "key<TAB>value" line per entry, sorted
+//	                                             (string literals unquoted, identifiers/other expressions as source text)
+//	extract fn <file.go> <Name[,Name...]> <prefix>  first-order functions over strings, ints, bools, slices and
+//	                                             structs (fn.go; tools/notes/Translator.md)
+//	extract src <file.go> <Name>                 the Go text of a function
+//
 // Supported by the first mode: parameters of type int; a body that is a sequence of
-//   if <cond> { return <expr> }   (optionally with else { return <expr> } / else if ...)
+//
+//	if <cond> { return <expr> }   (optionally with else { return <expr> } / else if ...)
+//
 // ended by `return <expr>`; cond over ==, !=, <, <=, >, >=, &&, ||, !, parentheses;
 // expr over identifiers, integer literals, +, -, *, parentheses.
 // Anything else: exit status 3 and a message (the caller then falls back to the behavioural tie only).
